@@ -59,6 +59,14 @@ def Recreated (n : Name) (toml : Bytes) (after : FS) : Prop :=
   (∃ m, fget after (layerToml n) = some (.file m toml)) ∧
   (∀ p ∈ layerSboms n, fget after p = none)
 
+/-- The freshly written `<name>.toml`, as the one-byte token the snapshots record for the target layer's metadata file:
+the requested types and no metadata for the struct API (`U` launch+build, `C` launch+build+cache), the types and the
+create result's metadata for the trait API (`R`). -/
+def freshDoc : Api → Bytes
+  | .uncached => [85]
+  | .cached => [67]
+  | .handle => [82]
+
 /-! ### The same statements as executable checks on two snapshots (what the oracle runs) -/
 
 def paths (a b : FS) : List Path := a.map Prod.fst ++ b.map Prod.fst
